@@ -872,7 +872,7 @@ main (int argc, char **argv)
     }
 
   static char line[4 * ARENA + 1024];
-  static char t0[64], t1[2 * ARENA + 8], t2[2 * ARENA + 8], t3[64], t4[64], t5[64];
+  static char t0[2 * ARENA + 8], t1[2 * ARENA + 8], t2[2 * ARENA + 8], t3[64], t4[64], t5[64];
   while (fgets (line, sizeof line, stdin))
     {
       lineno++;
@@ -887,7 +887,7 @@ main (int argc, char **argv)
           *q = '?';
       t0[0] = t1[0] = t2[0] = t3[0] = t4[0] = t5[0] = 0;
       char cmd[32];
-      int nf = sscanf (line, "%31s %63s %163839s %163839s %63s %63s %63s", cmd, t0, t1, t2, t3, t4, t5);
+      int nf = sscanf (line, "%31s %163839s %163839s %163839s %63s %63s %63s", cmd, t0, t1, t2, t3, t4, t5);
       (void) nf;
 
       if (!strcmp (cmd, "obj"))
@@ -1095,21 +1095,40 @@ main (int argc, char **argv)
           which_fn = !strcmp (cmd, "gensalt_r") ? 1 : !strcmp (cmd, "xgensalt_r") ? 2
                      : !strcmp (cmd, "xgensalt") ? 1 : 0;
           /* output buffer with guard bytes on both sides; a_outsize may be <= 0 */
-          static unsigned char gbuf[64 + 4096 + 64];
-          memset (gbuf, 0xc3, sizeof gbuf);
+          /* the buffer really has output_size bytes (the library may zero-fill all of it);
+             sizes above GBIG are a harness error */
+#define GBIG (1 << 20)
+          static unsigned char gsmall[64 + 4096 + 64];
+          static unsigned char *gbig;
+          unsigned char *gbuf = gsmall;
+          size_t gcap = 4096;
+          if (a_outsize > 4096)
+            {
+              if (a_outsize > GBIG)
+                {
+                  fprintf (stderr, "xcv: output size %d above harness limit\n", a_outsize);
+                  return 2;
+                }
+              if (!gbig)
+                gbig = (unsigned char *) syscall (9, 0, (size_t) (GBIG + 128), PROT_READ | PROT_WRITE,
+                                                  MAP_PRIVATE | MAP_ANONYMOUS, -1, 0);
+              gbuf = gbig;
+              gcap = GBIG;
+            }
+          memset (gbuf, 0xc3, 64 + gcap + 64);
           a_out = (char *) gbuf + 64;
           int ec0 = ent_calls;
           if (scan_on)
             nneed = 0;
           run_call (kind == 0 ? call_gensalt_rn : kind == 1 ? call_gensalt : call_gensalt_ra);
           int guard_ok = 1, touched = 0;
-          long lim = a_outsize < 0 ? 0 : a_outsize > 4096 ? 4096 : a_outsize;
+          long lim = a_outsize < 0 ? 0 : a_outsize;
           if (kind == 0)
             {
               for (int i = 0; i < 64; i++)
                 if (gbuf[i] != 0xc3)
                   guard_ok = 0;
-              for (size_t i = 64 + (size_t) lim; i < sizeof gbuf; i++)
+              for (size_t i = 64 + (size_t) lim; i < 64 + gcap + 64; i++)
                 if (gbuf[i] != 0xc3)
                   guard_ok = 0;
               for (long i = 0; i < lim; i++)
@@ -1119,7 +1138,13 @@ main (int argc, char **argv)
           fprintf (out, "{\"e\":\"%s\",\"prefix\":", cmd);
           if (a_prefix) jstr_codes ((const unsigned char *) a_prefix, (size_t) a_prefixlen); else fprintf (out, "[]");
           fprintf (out, ",\"prefixnull\":%d", a_prefix ? 0 : 1);
-          fprintf (out, ",\"count\":\"%lu\",\"rb\":", a_count);
+          {
+            char cb[32];
+            int cn = snprintf (cb, sizeof cb, "%lu", a_count);
+            fprintf (out, ",\"count\":\"%lu\",\"cd\":", a_count);
+            jstr_codes ((const unsigned char *) cb, (size_t) cn);
+          }
+          fprintf (out, ",\"rb\":");
           if (a_rb) jstr_codes ((const unsigned char *) a_rb, (size_t) a_rblen); else fprintf (out, "[]");
           fprintf (out, ",\"rbnull\":%d", a_rb ? 0 : 1);
           fprintf (out, ",\"nrbytes\":%d,\"osize\":%d,\"errno\":%d", a_nrbytes, kind == 0 ? a_outsize : GS_SIZE, r_errno);
